@@ -247,6 +247,12 @@ def _validate_chunk(build_dir, scns, path, nlines, wd, module, cfg):
             rej2 = validate_trace(one, wd, module=module, cfg=cfg)
         except TlcEvalError:
             rej2 = (1, 0)
+        except Broken as e:
+            # a SINGLE history (already rejected once inside its chunk) that TLC cannot explain within ten minutes
+            # either: counted as not explained -- a behaviour of the specification is found in seconds
+            if 'TLC timeout' not in str(e):
+                raise
+            rej2 = (line - acc, 0)
         if rej2 is None:
             r['unconfirmed'] += 1
             # keep the trace that was rejected once, for diagnosis (timing-dependent recordings)
